@@ -286,7 +286,9 @@ G_PLACEMENTS = {"none": None, "plain": "./graphs", "missing": "gr/a/b", "sibling
 
 def build_sandbox(sb: Path, scn: dict) -> dict:
     """Lay the scenario out under sb; returns paths."""
-    W = sb / "work"
+    # directory names are user input too: `deco` is appended to the name of the directory everything lives in, so that
+    # every absolute path of the run (output, graph, source, page directories) contains it (see NAME_DECOS)
+    W = sb / ("work" + scn.get("deco", ""))
     proj = W / "proj"
     for d in (proj, W / "lib", W / "elsewhere", W / "real", W / "victim" / "inner", proj / "media" / "m2", proj / "images", proj / "gexist",
               W / "shared_pages" / "inner", sb / "far" / "lib2" / "sub"):
@@ -1052,6 +1054,12 @@ def classify(scn, lay, r, fails) -> dict:
 # ----------------------------------------------------------------------------------------------
 
 
+# what a directory name may look like besides letters: every character except `/` and NUL is legal.  The ones below are
+# the ones some layer of FORD could give a meaning to: shell-style pattern characters (`fnmatch` is used by the source
+# search), blanks, quotes, format / template / regular-expression characters, a leading dash, non-ASCII, a trailing dot.
+NAME_DECOS = ["", " [v2]", "[1]", "*", " [!w]", "?x", "[a-z]k", "]", "[", " {1}", "%s", "(x)+", "'q\"", " -o", "\u00e9\u4e2d", "^$", "#1", "~", "[[]", "&;"]
+
+
 def gen_scenarios(rng: random.Random, n: int) -> list[dict]:
     outs = list(OUT_PLACEMENTS)
     gs = list(G_PLACEMENTS)
@@ -1100,6 +1108,21 @@ def gen_scenarios(rng: random.Random, n: int) -> list[dict]:
             scn["pre_out"] = "dir"
         scns.append(scn)
         k += 1
+    # the naming of the directories (drawn after everything else, so that the rest of the stream is as before): every
+    # placement of the first round alternates between a plain name and a decorated one from seed to seed; later
+    # scenarios are decorated with probability 1/2
+    off = rng.randrange(len(NAME_DECOS))
+    first = [s_ for s_ in scns if s_["id"] < len(outs)]
+    for scn in scns:
+        if scn["id"] < len(outs):
+            scn["deco"] = NAME_DECOS[1 + (scn["id"] * 7 + off) % (len(NAME_DECOS) - 1)] if (scn["id"] + off) % 2 == 0 else ""
+        else:
+            scn["deco"] = rng.choice(NAME_DECOS[1:]) if rng.random() < 0.5 else ""
+    # ... and every refusing placement once more under two further names (a refused run costs a few milliseconds): the
+    # refusal has to hold whatever the directories are called
+    for j, scn in enumerate([s_ for s_ in first if s_["out"] in REFUSING] * 2):
+        deco = NAME_DECOS[1 + (j * 3 + off) % (len(NAME_DECOS) - 1)]
+        scns.append(dict(scn, id=len(scns), deco=deco if deco != scn["deco"] else NAME_DECOS[1 + (j * 3 + off + 1) % (len(NAME_DECOS) - 1)]))
     return scns
 
 
@@ -1589,6 +1612,15 @@ def run(tier: str, seed: int, replay: str | None = None) -> int:
     ev_pt, bad_pt, fail_pt = micro_pagetree(ford, drv, random.Random(seed * 15485863 + 3), 80 if tier == "quick" else 3000, rep, pt_hist)
     ev_micro += ev_pt
     bad_micro += bad_pt
+    # directory names as user input: fnmatch, the refusal and the source search on names with pattern characters
+    from . import c19_names as names
+    nq = tier == "quick"
+    ev_fn, bad_fn, fn_hist = names.micro_fnmatch(ford, drv, random.Random(seed * 611953 + 11), 1500 if nq else 30000, rep)
+    ev_rf, bad_rf, fail_rf, rf_hist = names.micro_refusal(ford, drv, random.Random(seed * 32452843 + 13), 250 if nq else 5000, rep)
+    ev_sr, bad_sr, fail_sr, sr_hist = names.micro_sources(ford, drv, random.Random(seed * 49979687 + 17), 60 if nq else 1500, rep,
+                                                          bool(tables.get("excludeOutputByPath", False)))
+    ev_micro += ev_fn + ev_rf + ev_sr
+    bad_micro += bad_fn + bad_rf + bad_sr
 
     if replay:
         data = json.loads(Path(replay).read_text())
@@ -1598,7 +1630,7 @@ def run(tier: str, seed: int, replay: str | None = None) -> int:
     else:
         scns = gen_scenarios(rng, n_scn)
 
-    hist = {"out": {}, "gdir": {}, "pages": {}, "pre_out": {}, "links": {}, "regen": {}, "stale_links": {}, "flags": {},
+    hist = {"out": {}, "gdir": {}, "pages": {}, "pre_out": {}, "links": {}, "deco": {}, "regen": {}, "stale_links": {}, "flags": {},
             "prim_kinds": {}, "outcome": {}}
     samples = []
     distinct = set()
@@ -1625,6 +1657,7 @@ def run(tier: str, seed: int, replay: str | None = None) -> int:
                      "media": 1, "css": True, "mathjax": 1, "favicon": True,
                      "pages": rrng.choice(["simple", "collide", "dotdot_inside"]), "pre_out": "absent",
                      "srcset": rrng.choice([0, 2]), "links": 0}
+            sweep["deco"] = rrng.choice(NAME_DECOS)
             sr = run_scenario(sweep, base, tables)
             runs.append(sr)
             if sr["res"]["exc"] is None:
@@ -1667,7 +1700,7 @@ def run(tier: str, seed: int, replay: str | None = None) -> int:
         fault_runs = []
         cands = [r for r in runs if not r["scn"].get("regen") and r["scn"]["out"] not in REFUSING and r["res"]["exc"] is None]
         cands.sort(key=lambda r: -len(r["rec"].events))
-        budget_s = 20 if tier == "quick" else 900
+        budget_s = 15 if tier == "quick" else 900
         t_f = time.time()
         picks = cands[:1] + [c for c in cands if c["scn"]["pages"] in ("escape", "simple")][:2] if cands else []
         seen_ids = set()
@@ -1719,7 +1752,7 @@ def run(tier: str, seed: int, replay: str | None = None) -> int:
                 k = p.split(" ", 1)[0]
                 hist["prim_kinds"][k] = hist["prim_kinds"].get(k, 0) + 1
             if not is_fault:
-                for key in ("out", "gdir", "pages", "pre_out", "links"):
+                for key in ("out", "gdir", "pages", "pre_out", "links", "deco"):
                     hist[key][str(scn.get(key, 0))] = hist[key].get(str(scn.get(key, 0)), 0) + 1
                 rg = scn["regen"]["mode"] if scn.get("regen") else "first-run"
                 hist["regen"][rg] = hist["regen"].get(rg, 0) + 1
@@ -1826,7 +1859,9 @@ def run(tier: str, seed: int, replay: str | None = None) -> int:
         samples=samples,
         traces_validated_against_impl=n_runs + n_fault_runs + ev_micro,
         correspondence_disagreements=n_corr_bad + bad_micro,
-        oracle_failures=n_oracle_fail + fail_guard + fail_pt,
+        oracle_failures=n_oracle_fail + fail_guard + fail_pt + fail_rf + fail_sr,
+        names_micro={"fnmatch": {"cases": ev_fn, "histogram": fn_hist}, "refusal": {"cases": ev_rf, "histogram": rf_hist},
+                     "sources": {"cases": ev_sr, "histogram": sr_hist}},
         guard_micro_cases=ev_guard,
         pagetree_micro_cases=ev_pt, pagetree_micro_histogram=pt_hist,
         scenario_runs=n_runs, fault_injection_runs=n_fault_runs,
